@@ -1,0 +1,131 @@
+//! Verification hooks, only compiled with `--cfg calloop_verif`.
+//!
+//! Nothing in this module changes the behaviour of the crate: it exposes read-only views of
+//! internal state, the pure token arithmetic, and optional yield points that do nothing unless a
+//! scheduler callback has been installed by a test harness.
+
+use std::sync::OnceLock;
+use std::time::Duration;
+
+use crate::token::TokenInner;
+use crate::{RegistrationToken, Token, TokenFactory};
+
+/// Decode a poller key into `(id, version, sub_id)` with `From<usize> for TokenInner`
+pub fn token_unpack(key: usize) -> (u32, u16, u16) {
+    TokenInner::from(key).verif_fields()
+}
+
+/// Encode the poller key of `(id, version, sub_id)` with `From<TokenInner> for usize`
+pub fn token_pack(id: u32, version: u16, sub_id: u16) -> usize {
+    TokenInner::verif_from_fields(id, version, sub_id).into()
+}
+
+/// `TokenInner::new`
+pub fn token_new(id: usize) -> Option<(u32, u16, u16)> {
+    TokenInner::new(id).ok().map(|t| t.verif_fields())
+}
+
+/// `TokenInner::increment_version`
+pub fn token_inc_version(id: u32, version: u16, sub_id: u16) -> (u32, u16, u16) {
+    TokenInner::verif_from_fields(id, version, sub_id)
+        .increment_version()
+        .verif_fields()
+}
+
+/// `TokenInner::increment_sub_id` (panics like the real one)
+pub fn token_inc_sub_id(id: u32, version: u16, sub_id: u16) -> (u32, u16, u16) {
+    TokenInner::verif_from_fields(id, version, sub_id)
+        .increment_sub_id()
+        .verif_fields()
+}
+
+/// `TokenInner::forget_sub_id`
+pub fn token_forget_sub_id(id: u32, version: u16, sub_id: u16) -> (u32, u16, u16) {
+    TokenInner::verif_from_fields(id, version, sub_id)
+        .forget_sub_id()
+        .verif_fields()
+}
+
+/// `TokenInner::same_source_as`
+pub fn token_same_source(a: (u32, u16, u16), b: (u32, u16, u16)) -> bool {
+    TokenInner::verif_from_fields(a.0, a.1, a.2)
+        .same_source_as(TokenInner::verif_from_fields(b.0, b.1, b.2))
+}
+
+/// Fields of a `Token`
+pub fn token_fields(token: Token) -> (u32, u16, u16) {
+    token.inner.verif_fields()
+}
+
+/// Build a `Token` from its fields
+pub fn token_from_fields(id: u32, version: u16, sub_id: u16) -> Token {
+    Token {
+        inner: TokenInner::verif_from_fields(id, version, sub_id),
+    }
+}
+
+/// Fields of a `RegistrationToken`
+pub fn reg_token_fields(token: RegistrationToken) -> (u32, u16, u16) {
+    token.verif_inner().verif_fields()
+}
+
+/// A `TokenFactory` as the loop builds it for the slot token `(id, version, sub_id)`
+pub fn token_factory(id: u32, version: u16, sub_id: u16) -> TokenFactory {
+    TokenFactory::new(TokenInner::verif_from_fields(id, version, sub_id))
+}
+
+/// Read-only snapshot of the loop's bookkeeping
+#[derive(Debug, Clone, Copy, PartialEq, Eq)]
+pub struct VerifStats {
+    /// number of slots in the source list
+    pub slots: usize,
+    /// number of occupied slots
+    pub occupied: usize,
+    /// length of the additional-lifecycle-events list
+    pub lifecycle_len: usize,
+    /// number of entries in the timer heap
+    pub timer_heap_len: usize,
+    /// number of queued idle callbacks
+    pub idles_len: usize,
+    /// the pending post action (0 Continue, 1 Reregister, 2 Disable, 3 Remove)
+    pub pending_action: u8,
+}
+
+static YIELD_HOOK: OnceLock<fn(&'static str)> = OnceLock::new();
+
+/// Install the scheduler callback invoked at every yield point (once per process)
+pub fn install_yield_hook(hook: fn(&'static str)) {
+    let _ = YIELD_HOOK.set(hook);
+}
+
+/// A labelled point at which a controlling scheduler may pause the calling thread
+#[inline]
+pub fn yield_point(label: &'static str) {
+    if let Some(hook) = YIELD_HOOK.get() {
+        hook(label)
+    }
+}
+
+/// One `Poll::poll` call: the timeout asked for, the time to the next deadline, the wait used
+#[derive(Debug, Clone, Copy, PartialEq, Eq)]
+pub struct PollRecord {
+    /// timeout passed to `Poll::poll`
+    pub user_timeout: Option<Duration>,
+    /// time until the earliest timer deadline as computed by `Poll::poll`
+    pub next_timeout: Option<Duration>,
+    /// the timeout handed to the OS poller
+    pub effective: Option<Duration>,
+}
+
+static POLL_HOOK: OnceLock<fn(PollRecord)> = OnceLock::new();
+
+/// Install the observer of `Poll::poll` timeouts (once per process)
+pub fn install_poll_hook(hook: fn(PollRecord)) {
+    let _ = POLL_HOOK.set(hook);
+}
+
+pub(crate) fn record_poll(rec: PollRecord) {
+    if let Some(hook) = POLL_HOOK.get() {
+        hook(rec)
+    }
+}
